@@ -484,3 +484,167 @@ Corollary instant_order_irrelevant cfg comb t P R S evs evs' d :
 Proof.
   intros. rewrite (instant_spec cfg comb t P R S evs d), (instant_spec cfg comb t P R S evs' d); auto.
 Qed.
+
+(* ------------------------------------------------------------------------- *)
+(** * sync_sample: what a register holds after the clock events of an instant *)
+
+(* the valuation immediately before the instant, seen through the network *)
+Definition D_pre (cfg : config) (comb : network) (d : data) (r : nat) : bv :=
+  match fst (comb (map r_out (d_regs d)) (d_inputs d) r) with
+  | Some v => v | None => all_X (rg_width (get_reg cfg r)) end.
+Definition EN_pre (cfg : config) (comb : network) (d : data) (r : nat) : tbit :=
+  match snd (comb (map r_out (d_regs d)) (d_inputs d) r) with Some e => e | None => B1 end.
+
+Definition next_out (cfg : config) (comb : network) (P : list (nat * bool)) (d : data) (r : nat) (s : rstate) : bv :=
+  if triggered cfg P r then
+    if r_inrst s then
+      (if rstkind_eqb (ck_rst (reg_clock cfg r)) RST_SYNC
+       then match rg_rstval (get_reg cfg r) with Some v => v | None => r_out s end
+       else r_out s)
+    else match EN_pre cfg comb d r with
+         | BX => all_X (rg_width (get_reg cfg r))
+         | B1 => D_pre cfg comb d r
+         | B0 => r_out s
+         end
+  else r_out s.
+
+Lemma spec_clock_reg cfg P d r s :
+  nth_error (d_regs d) r = Some s ->
+  nth_error (d_regs (spec_clock cfg P d)) r =
+  Some (if triggered cfg P r then reg_advance (reg_clock cfg r) (get_reg cfg r) s else s).
+Proof. intro H. unfold spec_clock. simpl. rewrite nth_error_mapi, H. reflexivity. Qed.
+
+Lemma reg_advance_inrst c rg s : r_inrst (reg_advance c rg s) = r_inrst s.
+Proof.
+  unfold reg_advance, write_reset_value.
+  destruct (r_inrst s) eqn:E.
+  - destruct (rstkind_eqb (ck_rst c) RST_SYNC); [destruct (rg_rstval rg)|]; simpl; auto.
+  - destruct (r_latEN s); simpl; auto.
+Qed.
+
+Theorem sync_sample_spec cfg comb P d r s :
+  latched cfg comb d -> nth_error (d_regs d) r = Some s ->
+  exists s', nth_error (d_regs (spec_clock cfg P d)) r = Some s' /\
+             r_out s' = next_out cfg comb P d r s /\ r_inrst s' = r_inrst s.
+Proof.
+  intros Hl Hs. rewrite (spec_clock_reg cfg P d r s Hs).
+  destruct (latched_fields cfg comb d r s Hl Hs) as [HD HE].
+  eexists. split; [reflexivity|]. unfold next_out.
+  destruct (triggered cfg P r); [|split; reflexivity].
+  split; [|apply reg_advance_inrst].
+  unfold reg_advance, write_reset_value, EN_pre, D_pre. rewrite <- HD, <- HE.
+  destruct (r_inrst s).
+  - destruct (rstkind_eqb (ck_rst (reg_clock cfg r)) RST_SYNC); [destruct (rg_rstval (get_reg cfg r))|]; reflexivity.
+  - destruct (r_latEN s); reflexivity.
+Qed.
+
+(* ------------------------------------------------------------------------- *)
+(** * Reset events *)
+
+Lemma spec_reset_reg cfg R d r s :
+  nth_error (d_regs d) r = Some s ->
+  nth_error (d_regs (spec_reset cfg R d)) r =
+  Some (match rst_level cfg R r with
+        | Some lv => reg_reset_change (reg_clock cfg r) (get_reg cfg r) lv s
+        | None => s end).
+Proof. intro H. unfold spec_reset. simpl. rewrite nth_error_mapi, H. reflexivity. Qed.
+
+(* active level honoured: a register is in reset iff the reset signal is at the active level of ITS clock
+   (and it has a reset value at all) *)
+Lemma reg_in_reset_level c rg lv :
+  reg_in_reset c rg lv = Bool.eqb lv (ck_active_high c) && match rg_rstval rg with Some _ => true | None => false end.
+Proof. unfold reg_in_reset. destruct lv, (ck_active_high c); reflexivity. Qed.
+
+Lemma reg_reset_change_inrst c rg lv s : r_inrst (reg_reset_change c rg lv s) = reg_in_reset c rg lv.
+Proof.
+  unfold reg_reset_change, write_reset_value.
+  destruct (reg_in_reset c rg lv && rstkind_eqb (ck_rst c) RST_ASYNC); [destruct (rg_rstval rg)|]; reflexivity.
+Qed.
+
+(* asynchronous reset: the output takes the reset value at the reset event itself, no clock edge involved *)
+Lemma async_reset_immediate_reg c rg lv s v :
+  ck_rst c = RST_ASYNC -> rg_rstval rg = Some v -> lv = ck_active_high c ->
+  r_out (reg_reset_change c rg lv s) = v /\ r_inrst (reg_reset_change c rg lv s) = true.
+Proof.
+  intros Ha Hv Hl. unfold reg_reset_change. rewrite reg_in_reset_level, Hv, Hl, Ha, Bool.eqb_reflx. simpl.
+  unfold write_reset_value. simpl. rewrite Hv. split; reflexivity.
+Qed.
+
+(* synchronous reset (or none): a reset event never changes the output by itself *)
+Lemma sync_reset_no_immediate_change c rg lv s :
+  ck_rst c <> RST_ASYNC -> r_out (reg_reset_change c rg lv s) = r_out s.
+Proof.
+  intro Hn. unfold reg_reset_change.
+  destruct (ck_rst c); try contradiction; simpl; rewrite andb_false_r; reflexivity.
+Qed.
+
+(* releasing (or a level that is not the active one) never changes the output *)
+Lemma reset_release_keeps_output c rg lv s :
+  lv = negb (ck_active_high c) -> r_out (reg_reset_change c rg lv s) = r_out s /\ r_inrst (reg_reset_change c rg lv s) = false.
+Proof.
+  intro Hl. unfold reg_reset_change. rewrite reg_in_reset_level, Hl.
+  destruct (ck_active_high c); simpl; split; reflexivity.
+Qed.
+
+(* synchronous reset at the edge: in reset, an activation writes the reset value; enable and data are ignored *)
+Lemma sync_reset_at_edge_reg c rg s v :
+  ck_rst c = RST_SYNC -> rg_rstval rg = Some v -> r_inrst s = true ->
+  r_out (reg_advance c rg s) = v.
+Proof.
+  intros Hs Hv Hi. unfold reg_advance. rewrite Hi, Hs. simpl. unfold write_reset_value. rewrite Hv. reflexivity.
+Qed.
+
+(* an asynchronous register that is in reset ignores clock edges *)
+Lemma async_in_reset_ignores_edges c rg s :
+  ck_rst c = RST_ASYNC -> r_inrst s = true -> reg_advance c rg s = s.
+Proof. intros Ha Hi. unfold reg_advance. rewrite Hi, Ha. reflexivity. Qed.
+
+(* ------------------------------------------------------------------------- *)
+(** * Outputs after a whole instant *)
+
+Lemma stim_fold_regs cfg S : forall d, d_regs (stim_fold cfg S d) = d_regs d.
+Proof. unfold stim_fold. induction S as [|ik S IH]; intro d; simpl; [reflexivity|]. rewrite IH. reflexivity. Qed.
+
+Lemma nth_error_map_ {A B} (f : A -> B) l i : nth_error (map f l) i = option_map f (nth_error l i).
+Proof. revert i; induction l; intros [|i]; simpl; auto. Qed.
+
+Lemma latch_reg_out cfg comb d r : option_map r_out (nth_error (d_regs (latch cfg comb d)) r) = option_map r_out (nth_error (d_regs d) r).
+Proof. rewrite <- !nth_error_map_, latch_outs. reflexivity. Qed.
+
+Lemma latch_reg_inrst cfg comb d r : option_map r_inrst (nth_error (d_regs (latch cfg comb d)) r) = option_map r_inrst (nth_error (d_regs d) r).
+Proof. unfold latch. simpl. rewrite nth_error_mapi. destruct (nth_error (d_regs d) r); reflexivity. Qed.
+
+(* output and in-reset flag of register r after the instant: clock part, then reset part; latching and the
+   process phase do not touch them *)
+Theorem instant_outputs cfg comb P R S d r s :
+  latched cfg comb d -> nth_error (d_regs d) r = Some s ->
+  exists s1 s2,
+    nth_error (d_regs (spec_clock cfg P d)) r = Some s1 /\
+    r_out s1 = next_out cfg comb P d r s /\ r_inrst s1 = r_inrst s /\
+    s2 = match rst_level cfg R r with
+         | Some lv => reg_reset_change (reg_clock cfg r) (get_reg cfg r) lv s1
+         | None => s1 end /\
+    option_map r_out (nth_error (d_regs (spec_instant cfg comb P R S d)) r) = Some (r_out s2) /\
+    option_map r_inrst (nth_error (d_regs (spec_instant cfg comb P R S d)) r) = Some (r_inrst s2).
+Proof.
+  intros Hl Hs.
+  destruct (sync_sample_spec cfg comb P d r s Hl Hs) as (s1 & H1 & H2 & H3).
+  exists s1. eexists. repeat split; try eassumption.
+  - unfold spec_instant. rewrite latch_reg_out, stim_fold_regs, latch_reg_out.
+    rewrite (spec_reset_reg cfg R _ r s1 H1). reflexivity.
+  - unfold spec_instant. rewrite latch_reg_inrst, stim_fold_regs, latch_reg_inrst.
+    rewrite (spec_reset_reg cfg R _ r s1 H1). reflexivity.
+Qed.
+
+(* a register whose domain is not activated and whose reset pin sees no event keeps output and reset status *)
+Corollary untouched_register_holds cfg comb P R S d r s :
+  latched cfg comb d -> nth_error (d_regs d) r = Some s ->
+  triggered cfg P r = false -> rst_level cfg R r = None ->
+  option_map r_out (nth_error (d_regs (spec_instant cfg comb P R S d)) r) = Some (r_out s) /\
+  option_map r_inrst (nth_error (d_regs (spec_instant cfg comb P R S d)) r) = Some (r_inrst s).
+Proof.
+  intros Hl Hs Ht Hr.
+  destruct (instant_outputs cfg comb P R S d r s Hl Hs) as (s1 & s2 & _ & H2 & H3 & H4 & H5 & H6).
+  rewrite Hr in H4. subst s2. unfold next_out in H2. rewrite Ht in H2.
+  rewrite H5, H6, H2, H3. split; reflexivity.
+Qed.
